@@ -24,13 +24,13 @@ fn one<X: Sx>(ctx: &Ctx, idx: u64, l: usize, hdr_class: usize, msg_class: usize,
     ctx.distinct(&sig_s);
 
     let m_opt: Option<&[Vec<u8>]> = if l == 0 && idx % 2 == 0 { None } else { Some(&msgs) };
-    let s = ctx.call("sign", &sig_s, None, || Sig::<X>::sign(m_opt, &sk, &pk, hdr.as_opt()));
+    let s = ctx.call("sign", &sig_s, Some(l as u64 + 64), || Sig::<X>::sign(m_opt, &sk, &pk, hdr.as_opt()));
     let Some(sig) = s.value else {
         ctx.violation("C01:sign-failed", json!({"case":sig_s,"outcome":s.outcome.short(),"sk":hx(&sk.to_bytes()),"header":hx(hdr.octets()),"messages":msgs_json(&msgs)}));
         return;
     };
     let bytes = sig.to_bytes();
-    let v = ctx.call("verify", &sig_s, None, || sig.verify(&pk, m_opt, hdr.as_opt()));
+    let v = ctx.call("verify", &sig_s, Some(l as u64 + 64), || sig.verify(&pk, m_opt, hdr.as_opt()));
     if !v.outcome.is_ok() {
         ctx.violation("C01:verify-failed", json!({"case":sig_s,"outcome":v.outcome.short(),"sk":hx(&sk.to_bytes()),"header":hx(hdr.octets()),"messages":msgs_json(&msgs),"sig":hx(&bytes)}));
     }
@@ -41,7 +41,7 @@ fn one<X: Sx>(ctx: &Ctx, idx: u64, l: usize, hdr_class: usize, msg_class: usize,
             if sig2 != sig || sig2.to_bytes() != bytes {
                 ctx.violation("C01:roundtrip-differs", json!({"case":sig_s,"sig":hx(&bytes)}));
             }
-            let v2 = ctx.call("verify", &sig_s, None, || sig2.verify(&pk, m_opt, hdr.as_opt()));
+            let v2 = ctx.call("verify", &sig_s, Some(l as u64 + 64), || sig2.verify(&pk, m_opt, hdr.as_opt()));
             if !v2.outcome.is_ok() {
                 ctx.violation("C01:verify-after-roundtrip-failed", json!({"case":sig_s,"outcome":v2.outcome.short(),"sig":hx(&bytes)}));
             }
@@ -50,12 +50,12 @@ fn one<X: Sx>(ctx: &Ctx, idx: u64, l: usize, hdr_class: usize, msg_class: usize,
     }
     // absent == empty (messages and header)
     if l == 0 {
-        let a = ctx.call("sign", &sig_s, None, || Sig::<X>::sign(None, &sk, &pk, hdr.as_opt()));
-        let b = ctx.call("sign", &sig_s, None, || Sig::<X>::sign(Some(&[]), &sk, &pk, hdr.as_opt()));
+        let a = ctx.call("sign", &sig_s, Some(l as u64 + 64), || Sig::<X>::sign(None, &sk, &pk, hdr.as_opt()));
+        let b = ctx.call("sign", &sig_s, Some(l as u64 + 64), || Sig::<X>::sign(Some(&[]), &sk, &pk, hdr.as_opt()));
         match (a.value, b.value) {
             (Some(a), Some(b)) if a.to_bytes() == b.to_bytes() && a.to_bytes() == bytes => {
                 for mo in [None, Some(&[][..])] {
-                    let v = ctx.call("verify", &sig_s, None, || a.verify(&pk, mo, hdr.as_opt()));
+                    let v = ctx.call("verify", &sig_s, Some(l as u64 + 64), || a.verify(&pk, mo, hdr.as_opt()));
                     if !v.outcome.is_ok() {
                         ctx.violation("C01:none-vs-empty-messages", json!({"case":sig_s,"what":"verify"}));
                     }
@@ -66,11 +66,11 @@ fn one<X: Sx>(ctx: &Ctx, idx: u64, l: usize, hdr_class: usize, msg_class: usize,
     }
     if matches!(hdr, Hdr::Absent | Hdr::Empty) {
         for h in [None, Some(&[][..])] {
-            let a = ctx.call("sign", &sig_s, None, || Sig::<X>::sign(m_opt, &sk, &pk, h));
+            let a = ctx.call("sign", &sig_s, Some(l as u64 + 64), || Sig::<X>::sign(m_opt, &sk, &pk, h));
             if a.value.map(|a| a.to_bytes()) != Some(bytes) {
                 ctx.violation("C01:none-vs-empty-header", json!({"case":sig_s,"what":"sign"}));
             }
-            let v = ctx.call("verify", &sig_s, None, || sig.verify(&pk, m_opt, h));
+            let v = ctx.call("verify", &sig_s, Some(l as u64 + 64), || sig.verify(&pk, m_opt, h));
             if !v.outcome.is_ok() {
                 ctx.violation("C01:none-vs-empty-header", json!({"case":sig_s,"what":"verify"}));
             }
